@@ -70,6 +70,14 @@ def observe_table(tbl, zs):
     return obs
 
 
+def cclose(m: complex, v: complex, rel=1e-9) -> bool:
+    """complex values compared by magnitude (a table node of the model may differ from the
+    code's by an ulp, which moves an interpolated part that is exactly 0 to ~1e-15)"""
+    if m != m or v != v:
+        return (m.real != m.real) == (v.real != v.real) and (m.imag != m.imag) == (v.imag != v.imag)
+    return abs(m - v) <= rel * max(abs(m), abs(v), 1e-300)
+
+
 def parse_rec(toks):
     """model reply of showRec -> (id, values)"""
     rid = int(toks[0])
@@ -152,13 +160,15 @@ def compare(run: Run, corr, obs, rep, atoms, table_atoms, tables_py, nodes, node
         flat = None if tp is None else [x for w, c in zip(tp[0], tp[1]) for x in (w, c.real, c.imag)]
         ok = (mt is None) == (flat is None)
         if ok and mt is not None:
-            ok = len(mt) == len(flat) and all(close(m, f) for m, f in zip(mt, flat))
+            ok = len(mt) == len(flat) and all(
+                close(mt[i], flat[i]) and cclose(complex(mt[i + 1], mt[i + 2]), complex(flat[i + 1], flat[i + 2]))
+                for i in range(0, len(mt), 3))
         if not ok:
             run.disagree(corr, dict(inp, z=z, a=a, what="nsf_table"), mt and mt[:9], flat and flat[:9])
             bad.append((z, a))
     for (z, a, lam), vp in zip(nodes, nodes_py):
         toks = next(it).split()
-        ok = toks != ["N"] and close(h2f(toks[0]), vp.real) and close(h2f(toks[1]), vp.imag, abs_=1e-300)
+        ok = toks != ["N"] and cclose(complex(h2f(toks[0]), h2f(toks[1])), vp)
         if not ok:
             run.disagree(corr, dict(inp, z=z, a=a, what="scattering_by_wavelength", wavelength=lam),
                          toks, [vp.real, vp.imag])
